@@ -118,6 +118,17 @@ class PG:
                 self.end()
                 self.emit("")
                 self.cfuncs[kind].append(name)
+        # a GIL-holding cdef function that returns from inside a nogil block
+        name = "c_ngr0"
+        self.begin(name)
+        self.emit("cdef int c_ngr0(int a) noexcept:")
+        self.emit("    with nogil:")
+        self.emit("        if a == 1:")
+        self.emit("            return 7")
+        self.emit("    return a + 4")
+        self.end()
+        self.emit("")
+        self.cfuncs["ngr"] = [name]
         # nogil helper re-acquiring the GIL for a probe
         for j in range(1):
             name = "c_ng%d" % j
@@ -227,7 +238,12 @@ class PG:
     def leaf(self, ind):
         r = self.rng
         c = self.cfuncs
-        q = r.randrange(20)
+        q = r.randrange(22)
+        if q == 20:
+            return ["%sn = c_ngr0(a)" % ind]
+        if q == 21:
+            # a cpdef function entered through its Python wrapper (looked up on the module object)
+            return ["%so = sys.modules[__name__].%s(a)" % (ind, r.choice(c["cp"]))]
         if q == 0:
             return [ind + self.p()]
         if q == 1:
@@ -351,7 +367,9 @@ def _has_guarded_return(lines):
     guards = []      # (indent, end_line_exclusive) regions that are guarded
     for i, l in enumerate(lines):
         s = l.strip()
-        if s.startswith("with ") and s.endswith(":") and not s.startswith("with nogil") and not s.startswith("with gil"):
+        if s.startswith("with ") and s.endswith(":") and not s.startswith("with gil"):
+            # ('with nogil' too: the return event of a 'return' inside it is dropped unless CYTHON_TRACE_NOGIL is set - same
+            # root cause as F19, the event is emitted at the return statement instead of the function exit)
             j = i + 1
             while j < n and (not lines[j].strip() or ind[j] > ind[i]):
                 j += 1
@@ -380,7 +398,7 @@ def _has_guarded_return(lines):
     return False
 
 
-HEADER = "from simseam import P, X, CM, E1, E2, E3, Inj, Tracked\n\n"
+HEADER = "import sys\nfrom simseam import P, X, CM, E1, E2, E3, Inj, Tracked\n\n"
 
 
 def gen_module(rng, nfuncs):
@@ -393,7 +411,8 @@ def gen_module(rng, nfuncs):
         g.gen_driver(k)
     # helpers with a return inside try/finally or with are hit by F19 as well
     src = "\n".join(g.lines) + "\n"
-    meta = {"spans": {k: [list(x) for x in v] for k, v in g.spans.items()}, "f19": sorted(g.f19 | _helpers_with_guarded_return(g))}
+    meta = {"spans": {k: [list(x) for x in v] for k, v in g.spans.items()}, "f19": sorted(g.f19 | _helpers_with_guarded_return(g)),
+            "f33": sorted(g.cfuncs["cp"])}      # cpdef functions that drivers also enter through their Python wrapper
     return src, meta
 
 
@@ -503,7 +522,8 @@ def one_run(check, seed, i, cfg):
                 from . import tracemon
                 obs_n += 1
                 f19 = () if os.environ.get("SIMKIT_RAW_REPLAY") else ms["meta"]["f19"]
-                mon = tracemon.make(("profile", "trace", "both", "decline")[obs_n % 4], ms["name"] + ".pyx", ms["meta"]["spans"], f19)
+                mon = tracemon.make(("profile", "trace", "both", "decline")[obs_n % 4], ms["name"] + ".pyx", ms["meta"]["spans"], f19,
+                                    () if os.environ.get("SIMKIT_RAW_REPLAY") else ms["meta"].get("f33", ()))
             cap = None
             if mode == "refs":
                 gc.collect()
@@ -540,15 +560,18 @@ def one_run(check, seed, i, cfg):
                 P["line_events"] = P.get("line_events", 0) + mon.line_events
                 if mon.known_f19:
                     P["known_F19_return_event_before_finally"] = P.get("known_F19_return_event_before_finally", 0) + 1
+                if mon.known_f33:
+                    P["known_F33_cpdef_entered_through_python_wrapper"] = P.get("known_F33_cpdef_entered_through_python_wrapper", 0) + 1
                 if problems:
                     v = {"klass": "trace-events:" + problems[0]["what"], "detail": {"mode": mon.mode, "problems": problems}, "observer_mode": mon.mode}
-                elif mon.mode == "decline":
-                    P["scopes_declined_by_the_tracer"] = P.get("scopes_declined_by_the_tracer", 0) + mon.declined_calls
-                    # an observer that declines scopes must not change what the program does
+                else:
+                    if mon.mode == "decline":
+                        P["scopes_declined_by_the_tracer"] = P.get("scopes_declined_by_the_tracer", 0) + mon.declined_calls
+                    # an observer must not change what the program does
                     ru = run_case(mod, fi, arg, plan, sm)
                     if (ru["outcome"], ru["log"]) != (rs["outcome"], rs["log"]):
-                        v = {"klass": "trace-events:tracing-changes-behaviour", "observer_mode": "decline",
-                             "detail": {"mode": "decline", "traced": rs["outcome"], "untraced": ru["outcome"]}}
+                        v = {"klass": "trace-events:tracing-changes-behaviour", "observer_mode": mon.mode,
+                             "detail": {"mode": mon.mode, "traced": rs["outcome"], "untraced": ru["outcome"]}}
             if mode == "refs":
                 sm.PLAN.clear()
                 gc.collect()
@@ -644,7 +667,7 @@ def run_single(ms, fi, arg, plan, observer):
         out = None
         for mode in ("profile", "trace", "both", "decline"):
             f19 = () if os.environ.get("SIMKIT_RAW_REPLAY") else ms["meta"]["f19"]
-            mon = tracemon.make(mode, ms["name"] + ".pyx", ms["meta"]["spans"], f19)
+            mon = tracemon.make(mode, ms["name"] + ".pyx", ms["meta"]["spans"], f19, () if os.environ.get("SIMKIT_RAW_REPLAY") else ms["meta"].get("f33", ()))
             mon.install()
             try:
                 rs = run_case(mod, fi, arg, plan, sm)
@@ -653,11 +676,10 @@ def run_single(ms, fi, arg, plan, observer):
             if problems:
                 out = {"klass": "trace-events:" + problems[0]["what"], "detail": {"mode": mode, "problems": problems}}
                 break
-            if mode == "decline":
-                ru = run_case(mod, fi, arg, plan, sm)
-                if (ru["outcome"], ru["log"]) != (rs["outcome"], rs["log"]):
-                    out = {"klass": "trace-events:tracing-changes-behaviour", "detail": {"mode": "decline", "traced": rs["outcome"], "untraced": ru["outcome"]}}
-                    break
+            ru = run_case(mod, fi, arg, plan, sm)
+            if (ru["outcome"], ru["log"]) != (rs["outcome"], rs["log"]):
+                out = {"klass": "trace-events:tracing-changes-behaviour", "detail": {"mode": mode, "traced": rs["outcome"], "untraced": ru["outcome"]}}
+                break
         return out
     if observer == "refs":
         gc.collect()
